@@ -509,6 +509,10 @@ def to_txt(
         filename = full_output_folder / f"{name}.txt"
 
     full_filename: Path = filename.resolve()
+
+    if full_filename.exists():
+        raise FileExistsError(f"File {full_filename} already exists!")
+
     np.savetxt(full_filename, data, delimiter=" | ", fmt="%.8e")
 
     return full_filename
@@ -545,6 +549,9 @@ def to_csv(
         filename = full_output_folder / f"{name}.csv"
 
     full_filename = filename.resolve()
+
+    if full_filename.exists():
+        raise FileExistsError(f"File {full_filename} already exists!")
     try:
         data.to_csv(full_filename, float_format="%g")
     except AttributeError:
